@@ -134,19 +134,34 @@ REQ(TOPO(topology) && ADOPTED(topology))
 ASG(verif_errno)
 ENS(RET == -1 && verif_errno == EPERM)
 ;
+/* q_case 1: adopted => EPERM (C19).  q_case 2 (C13): a kind word with unknown bits, or more than one FROM_ bit, or more
+ * than one MEANS_ bit, is rejected with EINVAL before anything is created; frame = {errno} in both cases. */
+#define POP2(x) (__builtin_popcountl(x) > 1)
+#define BAD_KIND(k) (((k) & ~(unsigned long)HWLOC_DISTANCES_KIND_ALL) || POP2((k) & HWLOC_DISTANCES_KIND_FROM_ALL) || POP2((k) & HWLOC_DISTANCES_KIND_VALUE_ALL))
 void * hwloc_distances_add_create(hwloc_topology_t topology, const char *name, unsigned long kind, unsigned long flags)
-REQ(TOPO(topology) && ADOPTED(topology))
+REQ(TOPO(topology) && LOADED(topology))
+REQ(q_case == 1 || q_case == 2)
+REQ(q_case == 1 ==> topology->adopted_shmem_addr != NULL)
+REQ(q_case == 2 ==> (topology->adopted_shmem_addr == NULL && BAD_KIND(kind)))
 ASG(verif_errno)
-ENS(RET == NULL && verif_errno == EPERM)
+ENS(RET == NULL)
+ENS(q_case == 1 ==> verif_errno == EPERM)
+ENS(q_case == 2 ==> verif_errno == EINVAL)
 ;
 #endif
 
 #ifdef GUARD_DIFF
 static int hwloc_apply_diff_one(hwloc_topology_t topology, hwloc_topology_diff_t diff, unsigned long flags) NEVER ;
+/* q_case 1: adopted => EPERM (C19).  q_case 2 (C16): unknown apply flags => EINVAL; no entry is applied, frame = {errno}. */
 int hwloc_topology_diff_apply(hwloc_topology_t topology, hwloc_topology_diff_t diff, unsigned long flags)
-REQ(TOPO(topology) && ADOPTED(topology))
+REQ(TOPO(topology) && LOADED(topology))
+REQ(q_case == 1 || q_case == 2)
+REQ(q_case == 1 ==> topology->adopted_shmem_addr != NULL)
+REQ(q_case == 2 ==> (topology->adopted_shmem_addr == NULL && (flags & ~(unsigned long)HWLOC_TOPOLOGY_DIFF_APPLY_REVERSE)))
 ASG(verif_errno)
-ENS(RET == -1 && verif_errno == EPERM)
+ENS(RET == -1)
+ENS(q_case == 1 ==> verif_errno == EPERM)
+ENS(q_case == 2 ==> verif_errno == EINVAL)
 ;
 #endif
 #endif
